@@ -20,9 +20,9 @@ from .. import effects, effect_engine, guards
 
 MANIFEST = {
     "level": "other",
-    "technique": "static analysis: representation-invariant rule on every store to Angle._deg, who-may-write rule, operator conformance by symbolic evaluation of each special method against the data-model meaning of its name (delegations resolved), effect analysis for operand preservation",
-    "text": "For every constructor form and every operator (35 methods), not for sampled values: the stored value is produced only by the range-reducing helpers, operators compute exactly the named operation on the stored values and hand it to the constructor (which reduces), reflected and in-place forms agree with the plain ones, operands are never written, and zero divisors raise ZeroDivisionError. Congruence to 1e-9 and the sign of every piece combination are rounding facts of reduce_deg/reduce_dms and are not decided.",
-    "note": "Trusted: Python data model (meaning of special-method names); reduce_deg(-x) = -reduce_deg(x) (checked structurally: sign * (int(|x|) % 360 + frac)); dms2deg bounded by reduce_dms. Undecided: congruence to 1e-9 x magnitude, sign handling of sexagesimal pieces, to_positive() for tiny negatives.",
+    "technique": "static analysis: representation-invariant rule on every store to Angle._deg, who-may-write rule, operator conformance by symbolic evaluation of each special method against the data-model meaning of its name (delegations resolved), effect analysis for operand preservation, exact execution (rational arithmetic) of the value Angle.set stores - reduce_deg / reduce_dms / dms2deg by their own extracted terms - on a grid of scalars and sexagesimal pieces",
+    "text": "For every constructor form and every operator (35 methods), not for sampled values: the stored value is produced only by the range-reducing helpers, operators compute exactly the named operation on the stored values and hand it to the constructor (which reduces), reflected and in-place forms agree with the plain ones, operands are never written, and zero divisors raise ZeroDivisionError. The value clause is decided in exact rational arithmetic by executing the stored-value term on a grid: scalars at and a hair (2^-40) around multiples of 360, tiny values of both signs, magnitudes up to 1e15; two and three sexagesimal pieces with fractional and overflowing minutes/seconds and the sign on each piece in turn - the stored value is strictly inside (-360, 360), congruent to the exact input modulo 360 and keeps its sign, and to_positive() gives the congruent value in [0, 360). What float rounding adds (the 1e-9 scaled tolerance) is not decided.",
+    "note": "Trusted: Python data model (meaning of special-method names); reduce_deg(-x) = -reduce_deg(x) (checked structurally: sign * (int(|x|) % 360 + frac)); dms2deg bounded by reduce_dms. Undecided: float rounding (1e-9 x magnitude); inputs off the executed grid; radians / hours inputs (irrational factor) beyond their relation to the degree form (R-FORMS).",
 }
 MOD, CLS = "Angle", "Angle"
 
@@ -30,16 +30,127 @@ MOD, CLS = "Angle", "Angle"
 def run(repo, rep, tier):
     rep.decided = ["D1 stored value always reduced (R-REP/R-OWN)", "D2 operands unchanged, fresh results (R-EFFECT)",
                    "D3 operator conformance incl. ZeroDivisionError and the rad/hour views (R-OPCONF)"]
-    rep.undecided = ["congruence mod 360 to 1e-9", "sign for every combination of sexagesimal pieces", "to_positive() for tiny negatives"]
+    rep.undecided = ["float rounding of the reduction (1e-9 x magnitude)", "inputs off the executed grid"]
+    rep.decided.append("D4 stored value in (-360, 360), congruent mod 360 to the exact input, sign kept - scalars and sexagesimal pieces with the sign on any piece; to_positive() in [0, 360): exact execution on a rational grid (R-VALUE)")
     rep.assumptions = ["operator dispatch goes to the class methods (no competing reflected method on int/float)"]
     r_rep(repo, rep)
     r_forms(repo, rep)
+    value_grid(repo, rep, tier)
     r_opconf(repo, rep)
     fam = [(MOD, q) for q in repo.mod(MOD).functions if q.startswith(CLS + ".") and "<locals>" not in q]
     effects.check_functions(repo, rep, fam)
     fresh_results(repo, rep)
     guards.check_functions(repo, rep, fam)
     return "other"
+
+
+def value_grid(repo, rep, tier):
+    """R-VALUE.  reduce_deg, reduce_dms and dms2deg are rational recipes (abs, floor, mod, comparisons).  The value Angle.set stores for
+    one, two and three numbers is executed exactly - the helpers by their own extracted terms - on a grid of rational inputs: exact
+    multiples of 360, values a hair below / above them, 0 and tiny values of both signs, magnitudes up to 1e15; sexagesimal pieces with
+    fractional and overflowing minutes and seconds, the sign on each piece in turn and on several.  Decided per input: the stored value
+    is strictly inside (-360, 360), congruent to the exact input modulo 360, and has the sign of the input (or is zero);
+    to_positive() gives the congruent value in [0, 360)."""
+    from ..rules import eval_exact, NotEvaluable, repo_prims
+    rep.rule("R-VALUE", "Angle.set stores a value in (-360, 360), congruent to the exact input mod 360, with the input's sign, for scalars and for sexagesimal "
+                        "pieces with the sign on any piece (exact execution of the extracted reduce_deg / reduce_dms / dms2deg terms on a rational grid)")
+    site = "%s.%s.set" % (MOD, CLS)
+    fn = repo.func(MOD, CLS + ".set")
+    if fn.args.vararg is None or fn.args.kwarg is None:
+        rep.inconcl("R-VALUE", site, "set() no longer takes (*args, **kwargs)")
+        return
+    va, kwn = fn.args.vararg.arg, fn.args.kwarg.arg
+    for q in ("reduce_deg", "reduce_dms", "dms2deg"):
+        rep.fn(MOD, CLS + "." + q)
+    base = repo_prims(repo)
+    try:
+        fr = repo.func(MOD, CLS + ".reduce_deg")
+        red_t = ret_term(repo, MOD, CLS + ".reduce_deg", arg_terms={fr.args.args[0].arg: T.sym("NUM_RED")})
+    except AnalysisError as e:
+        rep.inconcl("R-VALUE", site, "reduce_deg not extractable: %s" % e)
+        return
+
+    def prims(t, env):
+        if t[0] == "call" and t[1] == "red" and len(t) == 3:
+            return eval_exact(red_t, {T.sym("NUM_RED"): eval_exact(t[2], env, prims), "$memo": {}}, prims)
+        return base(t, env)
+    F = Fraction
+    syms = [T.sym("NUM_V%d" % i) for i in range(3)]
+    stored = {}
+    for k in (1, 2, 3):
+        try:
+            outs = [o for o in outcomes(repo, MOD, CLS + ".set", arg_terms={"self": T.sym("self"), va: ("tuple",) + tuple(syms[:k]), kwn: ("dict", ())}) if o.kind != "raise"]
+        except AnalysisError as e:
+            rep.inconcl("R-VALUE", site, "set() with %d value(s) not extractable: %s" % (k, e))
+            return
+        live = [o for o in outs if o.cond == ("bool", True)]
+        if len(live) != 1 or "self._deg" not in live[0].env:
+            rep.inconcl("R-VALUE", site, "set() with %d value(s): no single path that stores a value" % k)
+            return
+        stored[k] = live[0].env["self._deg"]
+    eps = F(1, 2 ** 40)
+    mags = [F(0), F(1, 10 ** 30), eps, F(1, 3), F(1), F("26.3"), F(180), F(360) - eps, F(360), F(360) + eps, F("386.3"), F(720), F(720) - eps, F("1000000.75"),
+            F(360) * 10 ** 12, F(10 ** 15) + F(1, 4), F(10 ** 15) - eps]
+    scal = [sg * m for m in mags for sg in (1, -1)]
+    dd = [F(0), F(1), F(23), F("23.5"), F(359), F(360), F(361), F("719.75"), F(10 ** 9) + F(1, 2)]
+    mm = [F(0), F(1, 2), F(26), F(59), F(60), F("61.25"), F(3600), F("100000.5")]
+    ss = [F(0), F(1, 4), F("49.6"), F("59.999"), F(60), F(61), F("3600.5"), F(10 ** 7) + F(1, 8)]
+    if tier != "thorough":
+        dd = [F(0), F("23.5"), F(359), F(360), F(10 ** 9) + F(1, 2)]
+        mm = [F(0), F(1, 2), F(59), F(60), F("61.25")]
+        ss = [F(0), F("49.6"), F(60), F("3600.5")]
+    signs3 = [(1, 1, 1), (-1, 1, 1), (1, -1, 1), (1, 1, -1), (-1, -1, 1), (-1, -1, -1), (1, -1, -1)]
+    cases = [(1, (x,)) for x in scal]
+    cases += [(2, (a * d, b * m)) for d in dd for m in mm for (a, b, _) in signs3[:5]]
+    cases += [(3, (a * d, b * m, c * s_)) for d in dd for m in mm for s_ in ss for (a, b, c) in signs3]
+    bad = {}
+    n = 0
+    for k, vals in cases:
+        env = dict(zip(syms, vals))
+        env["$memo"] = {}
+        try:
+            v = eval_exact(stored[k], env, prims)
+        except NotEvaluable as e:
+            rep.inconcl("R-VALUE", site, "stored value not executable: %s" % e)
+            return
+        except (TypeError, ValueError, ZeroDivisionError) as e:
+            bad.setdefault("error", []).append("Angle%s: %s: %s" % (tuple(float(x) for x in vals), type(e).__name__, e))
+            continue
+        n += 1
+        neg = any(x < 0 for x in vals)
+        mag = abs(vals[0]) + (abs(vals[1]) / 60 if k > 1 else 0) + (abs(vals[2]) / 3600 if k > 2 else 0)
+        exact = -mag if neg else mag
+        shown = "Angle(%s)" % ", ".join(str(float(x)) if x.denominator != 1 else str(x) for x in vals)
+        if isinstance(v, bool) or not isinstance(v, (int, Fraction)):
+            bad.setdefault("type", []).append("%s stores %r" % (shown, v))
+        elif not abs(v) < 360:
+            bad.setdefault("range", []).append("%s stores %s, outside (-360, 360)" % (shown, float(v)))
+        elif (v - exact) % 360 != 0:
+            bad.setdefault("congruence", []).append("%s stores %s; the input is %s = %s mod 360" % (shown, float(v), float(exact), float(exact % 360 if exact >= 0 else -((-exact) % 360))))
+        elif v != 0 and (v < 0) != (exact < 0):
+            bad.setdefault("sign", []).append("%s stores %s: the sign of the input (%s) is lost" % (shown, float(v), float(exact)))
+    # to_positive(): the congruent value in [0, 360)
+    try:
+        outs = [o for o in outcomes(repo, MOD, CLS + ".to_positive", arg_terms={"self": T.sym("self")}, extra_env={"self._deg": T.sym("NUM_DEG")}) if o.kind != "raise"]
+        tp = 0
+        for x in [sg * m for m in (F(0), F(1, 10 ** 30), eps, F(1), F("359.5"), F(360) - eps) for sg in (1, -1)]:
+            env = {T.sym("NUM_DEG"): x, "$memo": {}}
+            live = [o for o in outs if eval_exact(o.cond, env, prims) is True]
+            if len(live) != 1:
+                raise NotEvaluable("no single path")
+            v = eval_exact(live[0].env.get("self._deg", T.sym("NUM_DEG")), env, prims)
+            tp += 1
+            if not (0 <= v < 360) or (v - x) % 360 != 0:
+                bad.setdefault("to_positive", []).append("to_positive() of %s gives %s" % (float(x), float(v)))
+        n += tp
+    except (NotEvaluable, AnalysisError) as e:
+        rep.inconcl("R-VALUE", "%s.%s.to_positive" % (MOD, CLS), "not executable: %s" % e)
+    for kind, lst in sorted(bad.items()):
+        rep.violation("R-VALUE", site, "value:" + kind, lst[0] + "  (%d of %d executed inputs fail this way)" % (len(lst), n), obligation=True)
+    if not bad:
+        rep.ok("R-VALUE", site, "%d inputs executed exactly (scalars incl. multiples of 360 +- 2^-40 and up to 1e15; 2 and 3 sexagesimal pieces with overflow, fractions and the "
+                                "sign on any piece): stored value in (-360, 360), congruent mod 360, sign kept; to_positive() in [0, 360)" % n, obligation=True)
+    rep.floor("inputs executed through Angle.set", n, 800)
 
 
 def r_forms(repo, rep):
